@@ -237,7 +237,27 @@ R11.4 config templates and mock templates are both created with Funcs(template_f
 							}
 							return true
 						})
-						if usesPath {
+						// on every path: a statement of the function body itself, or under a guard that compares the
+						// recorded value with the loaded file's path (then the assignment is idempotent) - a store made
+						// only when the parameter is empty keeps what MOCKERY_CONFIG/--config/the file's own `config:`
+						// key said, which need not be the file in use (round 7)
+						always := false
+						for _, st := range nr.Body.List {
+							if st == ast.Stmt(x) {
+								always = true
+							}
+							if is, ok := st.(*ast.IfStmt); ok && is.Pos() <= x.Pos() && x.End() <= is.End() && is.Else == nil {
+								ast.Inspect(is.Cond, func(m ast.Node) bool {
+									if call, ok := m.(*ast.CallExpr); ok && strings.HasSuffix(calleeName(info, call), "pathlib.Path).String") {
+										if root, _ := selChainCalls(call.Fun); root != nil && pathObj != nil && info.Uses[root] == pathObj {
+											always = true
+										}
+									}
+									return true
+								})
+							}
+						}
+						if usesPath && always {
 							storePos = x.Pos()
 						}
 					}
